@@ -26,7 +26,7 @@ type recvCase struct {
 	Kauri   bool
 	Crypto  string
 	RPC     string // propose | vote | newview | timeout
-	Creator int    // id of the replica that created the object (2..4)
+	Creator int    // id of the replica that created the object (2..4; a proposal with a tree: 1..3)
 	Via     int    // id of the peer the message arrives from (== Creator unless relayed down the tree)
 	View    int
 	NCmds   int
@@ -41,6 +41,11 @@ func recvProp(c recvCase) common.Result {
 	defer cl.Close()
 	cl.topUp() // the receiver may become leader through what it receives: its proposer must find client commands
 	sub := cl.Stacks[0]
+	if c.Kauri && c.RPC == "propose" {
+		// with a tree, proposals travel from parent to child: the receiver is replica 4, whose parent is replica 2
+		// (the root, replica 1, leads and never receives one)
+		sub = cl.Stacks[3]
+	}
 	creator := cl.Stacks[c.Creator-1]
 	svc := sub.Srv.VerifService()
 	ctx := gorums.ServerCtx{Context: peerCtx(c.Via, 4)}
@@ -183,8 +188,9 @@ func TestC12ReceivePath(t *testing.T) {
 		c.RPC = rapid.SampledFrom([]string{"propose", "propose", "vote", "newview", "timeout"}).Draw(rt, "rpc")
 		c.Creator = rapid.IntRange(2, 4).Draw(rt, "creator")
 		c.Via = c.Creator
-		if c.Kauri && c.RPC == "propose" && rapid.Bool().Draw(rt, "relayed") {
-			c.Via = rapid.IntRange(2, 4).Draw(rt, "via") // an inner node of the tree passes the proposer's block on
+		if c.Kauri && c.RPC == "propose" {
+			c.Creator = rapid.IntRange(1, 3).Draw(rt, "proposer") // the root's block passed on by the inner node, or the inner node's own
+			c.Via = 2                                            // the receiver's parent in the tree
 		}
 		c.View = rapid.IntRange(1, 1000).Draw(rt, "view")
 		c.NCmds = rapid.IntRange(0, 3).Draw(rt, "ncmds")
